@@ -8,14 +8,14 @@ TB = ("Trusted: rustc's type checker, MIR construction and trait resolution (the
       "Float magnitudes, rounding and overflow are outside static reach and are not decided.")
 
 P = {
- 'C01': ('claimed clauses: signs, clamp, max, reach propagation, strict zero filter, player pairing, reached-only resolution queue, no stale memoised evaluation',
+ 'C01': ('claimed clauses: signs, clamp, max, reach propagation, strict zero filter, player pairing, reached-only resolution queue, no stale memoised evaluation, best-response value taken from the root search on every path, per-infoset payoff vector length',
          'E4 signed-monomial forms per player context + E2 guard dominance + E10 player tags over MIR',
          'Decides the clauses of the statement that are shapes of regret.rs / lib.rs on every path (negation for player two, clamp at 0, max of both regrets, sign convention of each best-response search vs the slot it feeds, reach = parent reach x edge probability from the node\'s own infoset entry, strict > 0 filter, which table is paired with which strategy). The best-response algorithm as a theorem is not decided. Static analysis is the right level for these clauses because each is a necessary condition visible in the code\'s shape for all games and profiles at once.', '4 C01'),
  'C02': ('bound formula, per-player sums over whole slices with the loop index, max of the two, non-negativity',
          'E4/E5 expression form of cum_regret + loop/sink dataflow over MIR',
          'Decides that the reported bound has exactly the form 2*PosPart(max-reduce over the whole slice)/it, summed over every infoset of the player with the loop\'s own iteration index, max over players, starting infinite. The domination inequality itself is a magnitude and is not decided.', '4 C02'),
  'C05': ('thread-error mapping, infallible one-thread path, acyclic lock order, zero-guarded normalisations, bound >= 0, no unsafe',
-         'E1 call-graph effects + E2 division/guard rule + E9 lock-order graph over MIR and the instance graph',
+         'E1 call-graph effects + E2 division/guard rule + E9 lock-order graph over MIR and the instance graph + decision table of Game::solve (one thread => Ok on every path)',
          'Decides the structural totality clauses: build errors propagated with ?, checked_mul -> ThreadOverflow, no Err constructible on the threads==1 edge, lock-order graph acyclic over blocking sites, every f64 division guarded or audited, uniform fallback, outputs normalised, zero unsafe. General panic freedom and NaN/overflow are not decided (evidence-only inventory).', '4 C05'),
  'C06': ('empty per-iteration workspace, cache discipline, commutative shared writes, fresh per-child reach in the frontier expansion, no RNG reachable, no unsafe',
          'E3 container typestate dataflow (interprocedural summaries) + E9 parallel-effect analysis + E1 reachability',
@@ -30,9 +30,9 @@ P = {
          'CFG loop analysis (range, exits, dominance, joins) + E4 taint for threshold non-interference',
          'A relational two-run property that follows from O1-O6, each a shape of the four solver loops, checked on each and cross-checked as siblings. Assumes the loop body is deterministic (C06/C07).', '4 C09'),
  'C10': ('RNG reachability per method, dispatch table, RNG confinement, draw-once, reset per pass, shared-draw index provenance, distribution sources, interval clause of the categorical sampler as a linear form of its scan loop',
-         'E1 instance-graph reachability + E2 guards + index-provenance dataflow over MIR',
-         'Decides which methods can reach an RNG at all, that randomness is confined to the two cached draw sites, one draw per infoset per pass, same draw for every node of an infoset, and what the samplers draw from. The inverse-CDF interval clause of the categorical sampler is numeric and not decided.', '4 C10'),
- 'C11': ('acceptance-effect table: every acceptance effect is dominated by the checks the contract lists for it',
+         'E1 instance-graph reachability + E2 guards + index-provenance dataflow over MIR + decision table of Game::solve by abstract interpretation + linear-form abstract interpretation of the sampler scan',
+         'Decides which methods can reach an RNG at all, that randomness is confined to the two cached draw sites, one draw per infoset per pass, same draw for every node of an infoset, and what the samplers draw from. The inverse-CDF interval clause of the categorical sampler is decided as a form (linear scan or scan/take_while/count chain), not numerically.', '4 C10'),
+ 'C11': ('acceptance-effect table: every acceptance effect is dominated by the checks the contract lists for it; the recall witness written for a child is always Some((infoset, action))',
          'E2 exact edge-guard dominance + path contexts + information-flow check of the recall witness',
          'Decides "accepts only the documented class" as a table effect -> dominating checks on every path of init_recurse (found the real defects D6, D7, D8). Sufficiency of the checks for well-defined evaluation (overflow) is not decided.', '4 C11'),
  'C12': ('rescaling by own sum, insertion-ordered index allocation, no hash-order flows, player-symmetric signs; parametricity as S-rule',
@@ -41,16 +41,16 @@ P = {
  'C13': ('ExactSizeIterator contract of all six impls, completeness, strict positive filter, single-action entries, player wiring, export layout',
          'E7 iterator-contract lint (per field and enum variant) + E2 guards + E10 tags',
          'Decides len()/size_hint() == items yielded for every iterator at every prefix (found the real defects D1, D2), completeness of the named view and the export layout. Round-trip equality up to rounding is not decided.', '4 C13'),
- 'C14': ('sibling agreement of the two import functions on outcome->context maps and check order; validated writes; error kinds; layout; wiring',
+ 'C14': ('sibling agreement of the two import functions on outcome->context maps and check order; validated writes; error kinds; layout; wiring; every Ok of the entry points behind both validations',
          'E8 sibling cross-check on abstract guard skeletons with disjunctive path contexts compared semantically',
          'Decides that the hashing and non-hashing imports reach every outcome (each error kind, the dense write, Ok) under exactly the same combinations of checks and in the same order, plus the absolute validation rules. Overflow of totals is not decided.', '4 C14'),
  'C15': ('offset coefficient, interior payoffs, payoffs consumed through the outcome table only, player mapping, sorted action lists, output field wiring, zero filter',
          'E4 forms + E10 tags + E2 dominance over the binary\'s MIR',
          'Decides the structural faithfulness clauses of the CLI output (found the real defect D11). Numeric equality with an independent evaluation rests on C01 and is not decided.', '4 C15'),
  'C16': ('option->argument wiring, enum->constructor/solver/parser tables, 0 => unlimited, unconditional clip step, strict clip comparison with paired replacement, same serialisation',
-         'E6 table agreement + relational pair dataflow over main\'s MIR',
+         'E6 table agreement + decision table of the parser dispatch by abstract interpretation + relational pair dataflow over main\'s MIR',
          'Decides that each option reaches the documented library parameter and that the clip step keeps (strategies, evaluation) paired on every path.', '4 C16'),
- 'C17': ('Result discipline, no output on failure, reader guards, whole-input JSON parse, constant-sum scan reads the outcome table, diagnostics<->README anchors, belief contradiction on name sets',
+ 'C17': ('Result discipline, no output on failure, reader guards, whole-input JSON parse, constant-sum scan reads the outcome table and accumulates at every node kind, diagnostics<->README anchors, belief contradiction on name sets',
          'error-discipline lint + E1 reachability + E2 dominance + README anchor table + belief-contradiction rule',
          'Decides that no parse/validation/solve error is dropped and nothing is printed before success (found the real defect D12). What the third-party parsers reject is not decided.', '4 C17'),
  'C18': ('division guard, survivor predicate agreement, zeroing only with survivors, rewrite whenever something survives, partition by own infosets',
@@ -88,8 +88,9 @@ man = {
     'engines': [
         {'name': 'cfr-facts', 'path': 'driver/', 'serves_properties': sorted(P), 'kind_free_text': 'rustc_private driver (RUSTC_WORKSPACE_WRAPPER): serialises MIR, resolved callees, items, unsafe inventory and the instance-resolved call graph to JSON'},
         {'name': 'rule library', 'path': 'rules/', 'serves_properties': sorted(P), 'kind_free_text': 'Python stdlib: CFG (dominators, exact edge guards, path contexts, loops), expression trees, E1 call-graph effects, E2 guards/divisions, E3 container typestate, E4 signed-monomial forms, E7 iterator contract, E8 sibling skeletons, E9 lock order / parallel effects, E10 player tags, E11 determinism lint'},
-        {'name': 'fact normalisation', 'path': 'rules/inline.py', 'serves_properties': sorted(P), 'kind_free_text': 'MIR-level normalisation of the fact base before the rules run: new private helpers and directly called local closures are inlined into their callers (const generics specialised), Iterator::for_each / fold become loops, renamed private functions are aliased by signature; identity on the reference tree (rules/known_fns.json)'},
-        {'name': 'patch sets', 'path': 'seeded/ benign/ rules/patchsets.py tools/regress.py', 'serves_properties': sorted(P), 'kind_free_text': '107 breaking changes and 202 behaviour-preserving refactors written by independent sub-agents, replayed on scratch copies in the thorough tier (seeded must still be caught, benign must stay silent)'},
+        {'name': 'fact normalisation', 'path': 'rules/inline.py', 'serves_properties': sorted(P), 'kind_free_text': 'MIR-level normalisation of the fact base before the rules run (rules/inline.py, rules/cfgnorm.py): new private helpers, directly called local closures and closures reached through an impl Fn parameter are inlined into their callers (const generics specialised); Iterator::for_each / fold / try_for_each and Option::or_else / unwrap_or_else become the loops / matches they abbreviate; jump threading, Try::branch lowering and def-use web splitting reconnect a helper\'s returned flag / Option / Result with the edge it takes; renamed private functions, trait methods and struct fields are aliased back using signatures and body fingerprints; identity on the reference tree (rules/known_fns.json)'},
+        {'name': 'decision tables', 'path': 'rules/absint.py rules/dispatch.py', 'serves_properties': ['C05', 'C10', 'C16'], 'kind_free_text': 'path-sensitive abstract interpretation of one function over enum variants / flags / symbolic inputs (dataflow over the MIR CFG, no execution, no solver): which sink is reached under which input combination, independent of how the dispatch is written; used for the parser dispatch of main and the solver dispatch of Game::solve'},
+        {'name': 'patch sets', 'path': 'seeded/ benign/ rules/patchsets.py tools/regress.py', 'serves_properties': sorted(P), 'kind_free_text': '158 breaking changes and 304 behaviour-preserving refactors written by independent sub-agents in three rounds, replayed on scratch copies in the thorough tier (seeded must still be caught, benign must stay silent)'},
         {'name': 'selftest', 'path': 'rules/selftest.py', 'serves_properties': sorted(P), 'kind_free_text': 'corpus of mutants and benign variants replayed on scratch copies (thorough tier); a failure is CHECKER-SELFTEST (exit 2), never a property violation'},
     ],
     'checks': checks,
